@@ -4,8 +4,9 @@ Spec: spec/Formula.tla (tokens, renderings, Translate), spec/FormulaGen.tla (pus
 well-formed formulas), MC_FormulaGen*.cfg (TLC: every accepted formula is well formed, translation by
 (0,0) is the identity, only non-$ parts move).  Every formula TLC accepts within the bound, plus
 seeded random formulas of depth <= 6, is given to the real library (harness/src/bin/formula.rs:
-Cell::set_formula / set_coordinate / get_formula for five offsets, and Worksheet::insert_new_row far
-below every reference); spec/Trace_FormulaCell.tla judges every text read back.
+Cell::set_formula / set_coordinate / get_formula for five offsets, Worksheet::insert_new_row far
+below every reference, and - the formula sitting on one sheet of a three-sheet workbook - workbook-level
+insert/remove of rows/columns on ANOTHER sheet at or before the formula's references); spec/Trace_FormulaCell.tla judges every text read back.
 
 This module also holds the Python side of the token vocabulary (constructors, rendering, the random
 expression generator) shared with checks/c08.py.  Python never judges: the texts it renders are
@@ -350,6 +351,39 @@ MOVES = [(3, 5, 3, 5), (3, 5, 4, 7), (3, 5, 2, 5), (3, 5, 3, 2), (1, 5, 16384, 5
 FAR = 1048570
 
 
+EDITED, THIRD = "Other Sheet", "Third"        # never used as a qualifier by the palettes / the random grammar
+_other_rng = None                              # seeded in gen_cases (sample of edits for the TLC-generated formulas)
+
+
+def ref_lines(toks, ax):
+    """every line number (row or column) the formula's references mention"""
+    vals = []
+    for t in toks:
+        if t["k"] == "ref":
+            g = t["g"]
+            if ax == "row" and g["k"] in ("cell", "rect", "rows"):
+                vals += [g["r1"]] + ([g["r2"]] if g["k"] != "cell" else [])
+            if ax == "col" and g["k"] in ("cell", "rect", "cols"):
+                vals += [g["c1"]] + ([g["c2"]] if g["k"] != "cell" else [])
+    return vals
+
+
+def other_sheet_items(toks, rng, own):
+    """Third identity path: workbook-level edits of another sheet, at or before the lines the formula mentions
+    (so that a shifter that wrongly applies them would move something).  The host cell C5 is on sheet `own`."""
+    items = []
+    for edit, ax in ([("Insert", "row")] + [(rng.choice(["Insert", "Remove"]), rng.choice(["row", "col"]))] if rng else
+                     [("Insert", "row"), ("Remove", "col")]):
+        lim = MAXROW if ax == "row" else MAXCOL
+        vals = ref_lines(toks, ax) or [3]
+        v = rng.choice(vals) if rng else min(vals)
+        p = max(1, min(v, rng.choice([1, v, v - 1, v]) if rng else 1))
+        n = rng.choice([1, 2, 3]) if rng else 1
+        n = max(1, min(n, lim - p + 1))
+        items.append({"op": "other", "c": 3, "r": 5, "edited": EDITED, "third": THIRD, "edit": edit, "ax": ax, "p": p, "n": n})
+    return items
+
+
 def cell_case(toks, text, rng=None, own="S1"):
     items = [{"op": "move", "fc": a, "fr": b, "tc": c, "tr": d} for a, b, c, d in MOVES]
     if rng is not None:                       # two more coordinate changes inside the grid
@@ -359,6 +393,7 @@ def cell_case(toks, text, rng=None, own="S1"):
             items.append({"op": "move", "fc": fc, "fr": fr, "tc": tc, "tr": tr})
     if row_extent(toks, own) < FAR:
         items.append({"op": "far", "c": 3, "r": 5, "p": FAR})
+    items += other_sheet_items(toks, rng if rng is not None else _other_rng, own)
     return {"kind": "cell", "toks": toks, "f": text, "own": own, "items": items}
 
 
@@ -372,7 +407,9 @@ def fatal_event(case, kind):
 
 
 def gen_cases(chk):
+    global _other_rng
     rng = chk.rng
+    _other_rng = rng
     quick = chk.tier == "quick"
     cfgs = ["MC_FormulaGen_replay.cfg", "MC_FormulaGen_replay_deep.cfg"] if quick else \
         ["MC_FormulaGen_replay.cfg", "MC_FormulaGen_replay4.cfg", "MC_FormulaGen_replay_deep6.cfg"]
@@ -447,7 +484,9 @@ def run(chk):
     chk.nontrivial = {c["f"] for c in cases + hcases if len(c["toks"]) >= 2}
     chk.rule = ("a case is one formula (token list + text) with 5-7 coordinate changes (no change, (+1,+2), (-1,0), (0,-3), "
                 "(+16383,0), two random ones for random formulas) through Cell::set_coordinate and one "
-                "Worksheet::insert_new_row far below all references; cases = every formula the TLC generator accepts within "
+                "Worksheet::insert_new_row far below all references; and two workbook-level insert/remove edits of ANOTHER sheet at or before the "
+                "formula's references (Spreadsheet::insert_new_row / insert_new_column_by_index / remove_row / "
+                "remove_column_by_index); cases = every formula the TLC generator accepts within "
                 "the bound plus seeded random formulas of depth <= 6; distinct = distinct formula texts, non-trivial = at "
                 "least two tokens; evaluations = coordinate changes / inserts judged")
     chk.sample({"formula": cases[0]["f"], "items": events[0][0].get("items", [])[:3]})
